@@ -431,8 +431,18 @@ func checkC06(c *Ctx) {
 			site := encl.Name() + ": " + shortName(n) + "(" + firstN(ap, 50) + ")"
 			seen = append(seen, site)
 			derivesFromCovert := strings.Contains(ap, ".Covert") || strings.Contains(ap, "GetCovertAddress()") || strings.Contains(ap, "originalC2S")
+			// the proxy side: Proxy itself, or an unexported helper that only Proxy (directly or through such a helper)
+			// calls and that dials the Covert field of the registration parameter it was handed
+			proxySide := f.Name() == "Proxy" && ap == "reg.Covert"
+			if !proxySide && f.Name() != "Proxy" && onlyCalledFrom(f, "Proxy", 2) {
+				for _, prm := range f.Params {
+					if strings.HasSuffix(typeShort(prm.Type()), "lib.DecoyRegistration") && ap == pname(prm)+".Covert" {
+						proxySide = true
+					}
+				}
+			}
 			switch {
-			case f.Name() == "Proxy" && ap == "reg.Covert":
+			case proxySide:
 				r.OK("C06.4", "Proxy dials the registration's stored Covert string verbatim", call.Pos(), ap)
 			case derivesFromCovert:
 				r.Bad("C06.4", fnName(f)+": dials a value derived from a registration's covert ("+firstN(ap, 50)+")", call.Pos(), fnName(f),
